@@ -7,12 +7,15 @@
         outcome = ok | dup | later | toodeep | err:<kind> | movefailed | panic:<what>
         dump = comma separated  txid:vout:value:height:cb:script  (unsorted)
     idle                                                       -> ok        (Idle/save: no observable change)
+    undolast                                                   -> ok <tip> <#outs> <Σvalue> <dump>   (Chain.UndoLastBlock)
     state                                                      -> <tip> <#outs> <Σvalue> <dump>
     work <bits>                                                -> <num> <den>
     morepow <id1> <id2>                                        -> 0|1|none
     farthest                                                   -> <id>
-    undochk                                                    -> ok <n> | bad <height>   (undo file of every active height
-                                                                  within the window is present)
+    undochk                                                    -> ok <n> | bad <height> | vcbad <n>
+                                                                  (undo file of every active height within the window is present;
+                                                                   every connected block's changes satisfied `validChangesB`, the
+                                                                   executable form of the hypothesis of theorem undo_commit)
 -/
 import GocoinV.Model.ChainTree
 import GocoinV.Base.Proto
@@ -81,7 +84,7 @@ def undoChk (c : Chain) : String :=
   let need := hs.filter fun h => h > 0 && h + UnwindBufLen > tipH
   match need.find? (fun h => (alookup h c.undoFiles).isNone) with
   | some h => s!"bad {h}"
-  | none => s!"ok {need.length}"
+  | none => if c.vcBad == 0 then s!"ok {need.length}" else s!"vcbad {c.vcBad}"
 
 def step (c : Chain) (toks : List String) : Chain × String :=
   let bad := (c, "bad-op")
@@ -101,6 +104,10 @@ def step (c : Chain) (toks : List String) : Chain × String :=
       | _ => bad
     | _, _, _, _ => bad
   | ["idle"] => (c, "ok")
+  | ["undolast"] =>
+    match undoLast c with
+    | .ok c' => (c', s!"ok {summary c' true}")
+    | .error e => (c, s!"{e} {summary c true}")
   | ["state"] => (c, summary c true)
   | ["work", b] =>
     match b.toNat? with
